@@ -3,6 +3,8 @@
 package main
 
 import (
+	"compress/gzip"
+	"bytes"
 	"bufio"
 	"context"
 	"fmt"
@@ -33,6 +35,7 @@ import (
 // Timeouts (seconds): server read/write/idle/handler = 2, backend dial/read/idle = 1; passive
 // ejection 1 s after 3 failures; breaker opens after 3 failures for 1 s.
 type ftEnv struct {
+	clientLimit time.Duration // how long the harness client waits for one exchange
 	addr   string
 	ln     net.Listener
 	lnMu   sync.Mutex
@@ -189,7 +192,7 @@ func ftNew(strategy string, cb, rl bool, hc int, pl bool) string {
 		px.close()
 		px = nil
 	}
-	e := &ftEnv{}
+	e := &ftEnv{clientLimit: 5 * time.Second}
 	l0, err := net.Listen("tcp", "127.0.0.1:0")
 	if err != nil {
 		return "err:listen"
@@ -210,7 +213,7 @@ func ftNew(strategy string, cb, rl bool, hc int, pl bool) string {
 	if rl {
 		cfg.RateLimit = config.RateLimitConfig{Enabled: true, MaxTokens: 200, RefillRate: 1}
 	}
-	if hc >= 1 {
+	if hc >= 1 && hc != 4 {
 		cfg.HealthChecks.Passive = config.PassiveHealthCheckConfig{Enabled: true, UnhealthyThreshold: 3, UnhealthyTimeout: 1}
 	}
 	if hc == 3 {
@@ -218,6 +221,12 @@ func ftNew(strategy string, cb, rl bool, hc int, pl bool) string {
 		// timeout (3 s): a silent backend is given up on by the handler deadline; ejection lasts 2 s
 		cfg.Server.Timeouts.Handler, cfg.Server.Timeouts.BackendRead = 1, 3
 		cfg.HealthChecks.Passive.UnhealthyTimeout = 2
+	}
+	if hc == 4 {
+		// timeouts closer to the documented defaults (backend_read 30 s, handler 30 s): a silent backend is given up on
+		// after 6 s, not after 1 s — exchanges that last seconds, not milliseconds
+		cfg.Server.Timeouts = config.TimeoutConfig{Read: 10, Write: 10, Idle: 10, Handler: 8, Shutdown: 1, BackendDial: 1, BackendRead: 6, BackendIdle: 1}
+		e.clientLimit = 10 * time.Second
 	}
 	if hc == 1 { // 2 = passive only: recovery must not depend on active probes
 		cfg.HealthChecks.Active = config.ActiveHealthCheckConfig{Enabled: true, Interval: 1, Timeout: 1, Path: "/health"}
@@ -289,9 +298,13 @@ func (e *ftEnv) exchange(fault string, limit time.Duration) (bool, string, int64
 		time.Sleep(80 * time.Millisecond) // Helios notices the client has gone and ends the exchange
 		return ended("client-abandoned")
 	}
+	acceptGzip := strings.HasSuffix(fault, "z") // the same fault seen by a client that accepts gzip (the plugin then buffers)
+	fault = strings.TrimSuffix(fault, "z")
 	if fault == "upg" {
 		// a clean request that offers a protocol upgrade (the backend answers a plain 200)
 		_, _ = io.WriteString(c, "GET /x HTTP/1.1\r\nHost: verif.test\r\nConnection: Upgrade\r\nUpgrade: h2c\r\nAccept-Encoding: identity\r\n\r\n")
+	} else if acceptGzip {
+		_, _ = io.WriteString(c, "GET /x HTTP/1.1\r\nHost: verif.test\r\nConnection: close\r\nAccept-Encoding: gzip\r\n\r\n")
 	} else {
 		_, _ = io.WriteString(c, "GET /x HTTP/1.1\r\nHost: verif.test\r\nConnection: close\r\nAccept-Encoding: identity\r\n\r\n")
 	}
@@ -308,9 +321,27 @@ func (e *ftEnv) exchange(fault string, limit time.Duration) (bool, string, int64
 		_, _ = io.ReadFull(resp.Body, buf)
 		return ended("client-aborted-download")
 	}
-	n, err := io.Copy(io.Discard, resp.Body)
+	var rb io.Reader = resp.Body
+	if resp.Header.Get("Content-Encoding") == "gzip" {
+		if zr, zerr := gzip.NewReader(resp.Body); zerr == nil {
+			rb = zr
+		}
+	}
+	var got bytes.Buffer
+	n, err := io.Copy(&got, io.LimitReader(rb, 1<<16))
+	if err == nil {
+		var more int64
+		more, err = io.Copy(io.Discard, rb)
+		n += more
+	}
 	if err != nil {
 		return ended(fmt.Sprintf("%d-then-broken(%d)", resp.StatusCode, n))
+	}
+	// a complete answer carries the body the backend wrote for this fault, nothing before or after it
+	want := map[string]string{"ok": "ok", "cau": "ok", "upg": "ok", "s500": "fail", "i503": "fail", "slow": "01234567890123456789012345678901234567890123456789"}
+	wantStatus := map[string]int{"ok": 200, "cau": 200, "upg": 200, "s500": 500, "i503": 503, "slow": 200}
+	if wb, known := want[fault]; known && resp.StatusCode == wantStatus[fault] && got.String() != wb {
+		return ended(fmt.Sprintf("%d-wrong-body(%d)", resp.StatusCode, n))
 	}
 	return ended(strconv.Itoa(resp.StatusCode))
 }
@@ -341,8 +372,8 @@ func ftOp(w []string) string {
 		time.Sleep(time.Duration(ms) * time.Millisecond)
 		return "ok"
 	case len(w) == 2 && w[0] == "req":
-		e.setMode(w[1])
-		ok, class, ms := e.exchange(w[1], 5*time.Second)
+		e.setMode(strings.TrimSuffix(w[1], "z"))
+		ok, class, ms := e.exchange(w[1], e.clientLimit)
 		r := "ended=0"
 		if ok {
 			r = "ended=1"
